@@ -270,7 +270,9 @@ def run_with_fault(case, ctx, mode, build_fault, at, label, compose=None):
                 inner = Flow(FeedStep(desc0, tables0), *steps[:at + 1])
                 if compose == 'load_tuple':
                     ds = inner.datastream()
-                    head = dataflows.load((ds.dp.descriptor, ds.res_iter), strip=False, cast_strategy=dataflows.load.CAST_DO_NOTHING)
+                    kw_ = {'limit_rows': 10 ** 6} if at % 2 else {}            # (an option that changes nothing here)
+                    head = dataflows.load((ds.dp.descriptor, ds.res_iter), strip=False,
+                                          cast_strategy=dataflows.load.CAST_DO_NOTHING, **kw_)
                 elif compose == 'sources':
                     head = dataflows.sources(inner)
                 else:
